@@ -82,134 +82,6 @@ type countSpec struct {
 	loopOK bool
 }
 
-func (p *Prog) syscallDiscipline(r *Report, rule string, fname string, f *ssa.Function, cs countSpec, deferOK func(name string) bool) {
-	paths, ok := p.enumPaths(f, 1, 20000)
-	if !ok {
-		r.Unknown(rule, fname+" paths", f.Pos(), "too many paths to enumerate")
-		return
-	}
-	type site struct {
-		call *ssa.Call
-		name string
-	}
-	var sites []site
-	p.instrs(f, func(b *ssa.BasicBlock, i int, in ssa.Instruction) {
-		if c, name, ok := unixCall(in); ok {
-			sites = append(sites, site{c, name})
-		}
-		if d, ok := in.(*ssa.Defer); ok {
-			if cal := calleeOf(&d.Call); cal != nil && cal.Pkg != nil && cal.Pkg.Pkg.Path() == "golang.org/x/sys/unix" {
-				r.Sites++
-				okD := deferOK != nil && deferOK(cal.Name())
-				r.Check(rule, fmt.Sprintf("%s defer unix.%s result discarded", fname, cal.Name()), instrPos(in), okD,
-					"the result of a deferred system call is discarded; only accepted for a close that follows an fsync on every path")
-			}
-		}
-	})
-	for _, s := range sites {
-		r.Sites++
-		c := s.call
-		// locate error and count results
-		var errV, cntV ssa.Value
-		res := c.Call.Signature().Results()
-		if res.Len() == 1 {
-			if isErrorType(res.At(0).Type()) {
-				errV = c
-			}
-		} else {
-			for _, rf := range refs(c) {
-				if ex, ok := rf.(*ssa.Extract); ok {
-					t := res.At(ex.Index).Type()
-					if isErrorType(t) {
-						errV = ex
-					} else if b, ok := t.Underlying().(*types.Basic); ok && b.Kind() == types.Int && ex.Index == 0 {
-						cntV = ex
-					}
-				}
-			}
-		}
-		hasErr := false
-		for i := 0; i < res.Len(); i++ {
-			if isErrorType(res.At(i).Type()) {
-				hasErr = true
-			}
-		}
-		key := fmt.Sprintf("%s unix.%s", fname, s.name)
-		if hasErr {
-			bad := ""
-			if errV == nil {
-				bad = "the error result is discarded (bound to _ or never extracted)"
-			} else {
-				ek := sk(errV)
-				for _, pt := range paths {
-					if !pathHas(pt, c) {
-						continue
-					}
-					ret, isRet := pt.endsInReturn()
-					if !isRet {
-						continue // ends in panic: the failure (or another refusal) surfaces
-					}
-					rs := pt.rels()
-					if rs[eqRel(ek, "nil")] || rs[eqRel(ek, "nil:error")] {
-						continue
-					}
-					returned := false
-					for _, rv := range ret.Results {
-						for _, o := range origins(rv) {
-							if o == errV {
-								returned = true
-							}
-						}
-					}
-					// `return err == nil` style: success flag derived from the error
-					for _, rv := range ret.Results {
-						if b, ok := rv.(*ssa.BinOp); ok && (b.X == errV || b.Y == errV) {
-							returned = true
-						}
-					}
-					if returned {
-						continue
-					}
-					bad = "a normal return is reachable without the error having been tested nil or returned: path " + pt.String()
-					break
-				}
-			}
-			r.Check(rule, key+" error", instrPos(c), bad == "", bad)
-		}
-		if want := cs.expected(c, s.name); want != nil {
-			bad := ""
-			if cntV == nil {
-				bad = "the byte count is discarded (bound to _): a short transfer is reported as success"
-			} else {
-				ck := sk(cntV)
-				for _, pt := range paths {
-					if !pathHas(pt, c) {
-						continue
-					}
-					if _, isRet := pt.endsInReturn(); !isRet {
-						continue
-					}
-					if eqHolds(pt.rels(), ck, want...) {
-						continue
-					}
-					bad = fmt.Sprintf("a normal return is reachable without the count having been proven equal to %v: path %s (facts %v)", want, pt.String(), relList(pt.rels()))
-					break
-				}
-			}
-			r.Check(rule, key+" count", instrPos(c), bad == "", bad)
-		}
-	}
-}
-
-func pathHas(pt cfgPath, in ssa.Instruction) bool {
-	for _, b := range pt.Blocks {
-		if b == in.Block() {
-			return true
-		}
-	}
-	return false
-}
-
 func isErrorType(t types.Type) bool {
 	n, ok := t.(*types.Named)
 	return ok && n.Obj().Pkg() == nil && n.Obj().Name() == "error"
